@@ -4,6 +4,7 @@ import (
 	"bytes"
 	"fmt"
 	"strings"
+	"time"
 	"unsafe"
 
 	"github.com/talostrading/sonic"
@@ -283,10 +284,11 @@ func init() {
 			"every Claim call replaces the outstanding claim (also one that grants zero bytes); the empty-buffer clause is only checked when nothing is committed and no claim is outstanding",
 			"all sizes are non-negative",
 		},
-		Builds:   func(string) []string { return []string{"checkptr"} },
-		NumCases: func(tier, build string) int { return vf.Tiered(tier, 6000, 3000000) },
-		Floor:    func(tier string) int { return vf.Tiered(tier, 500, 50000) },
-		Run:      runC10,
+		Builds:      func(string) []string { return []string{"checkptr"} },
+		NumCases:    func(tier, build string) int { return vf.Tiered(tier, 6000, 3000000) },
+		Floor:       func(tier string) int { return vf.Tiered(tier, 500, 50000) },
+		CaseTimeout: 30 * time.Second,
+		Run:         runC10,
 	})
 }
 
